@@ -292,12 +292,13 @@ fn faults_for(check: &str) -> (&'static [F], &'static [F]) {
     ];
     const BYTES: &[F] = &[F::ByteFlip, F::ByteTrunc, F::ByteOverwrite, F::DupFile, F::SigDup, F::SigShuf];
     const DELEG: &[F] = &[F::SubWrongSigner, F::SubExpired, F::SubInner, F::SubInner, F::WrongDir, F::ATamper, F::SharedSub, F::WrongStep, F::ExtraStranger, F::SubInspectionFails, F::DecoyDir, F::DecoyDir];
+    const C07SEC: &[F] = &[F::ByteFlip, F::DupFile, F::SigDup, F::SigShuf, F::ExtraStranger, F::ExtraStranger];
     const DISSENT: &[F] = &[F::Dissent, F::Dissent, F::Dissent, F::SharedSub];
     const C14F: &[F] = &[F::ByteFlip, F::ByteTrunc, F::ByteOverwrite, F::Garbage, F::IsDir, F::Dangling, F::DupFile, F::OddFileName, F::LEdit, F::LinkEdit];
     match check {
         "C01" => (LAYOUT, BYTES),
         "C02" => (ALL_COUNT, BYTES),
-        "C07" => (DISSENT, BYTES),
+        "C07" => (DISSENT, C07SEC),
         "C15" => (DELEG, ALL_COUNT),
         "C14" => (C14F, ALL_COUNT),
         _ => (ALL_COUNT, BYTES),
